@@ -8,6 +8,7 @@ import TinsModel.Wire.Transport.Theorems
 import TinsModel.Wire.App.Theorems
 import TinsModel.Wire.Wifi.Theorems
 import TinsModel.Wire.RegistryFacts
+import TinsModel.Wire.Coverage
 /-
   Property C01 — parsing untrusted bytes is memory-safe and fails only as malformed-packet.
   Generic part here; the per-class `*_parse_safe` theorems live in TinsModel/Wire/<Family>/Theorems.lean
@@ -50,6 +51,29 @@ example : ∃ os, Wire.parseChain 64 "EthernetII"
     ([1, 2, 3, 4, 5, 6, 7, 8, 9, 10, 11, 12, 0x08, 0x00] ++          -- Ethernet, IPv4
      [0x45, 0, 0, 28, 0, 0, 0, 0, 64, 17, 0, 0, 10, 0, 0, 1, 10, 0, 0, 2] ++   -- IP, UDP
      [0, 53, 0, 53, 0, 8, 0, 0]) = .ok os ∧ os.length = 3 := ⟨_, rfl, rfl⟩
+
+/-! ### entry-point coverage (the table `Gen.EntryPoints.all` is regenerated from the headers on every run) -/
+
+/-- the AST scan behind `Gen.EntryPoints.all` classified every declaration that matches the pattern -/
+theorem entry_scan_complete : Gen.EntryPoints.unparsed = [] := Wire.Coverage.scan_complete
+
+/-- **entry_points_covered** — every construct-from-buffer form of libtins' public interface (public constructor, static
+    member, member function or free function of namespace Tins taking `const uint8_t*` + size) has a disposition in
+    `Wire/Coverage.lean`: a Lean model with a safety theorem, a harness that drives it under the sanitizers, or a reason
+    why it is no parser of untrusted bytes.  A form added to libtins has none: this theorem then fails and the check
+    reports the new entry point. -/
+theorem entry_points_covered : ∀ e ∈ Gen.EntryPoints.all, (Wire.Coverage.disposition e).isSome :=
+  Wire.Coverage.entryPoints_covered
+
+/-- **wire_modelled_safe** — what a row `modelled "Wire.parseOne cls"` of the coverage table claims: for every class of
+    the seven families with a Lean model (`Coverage.safeModelled`), the parsing constructor never faults and throws only
+    `malformed_packet`, for ALL byte strings (`Wire.registry_classesSafe`, assembled from the families' theorems). -/
+theorem wire_modelled_safe (cls : String) (b : Bytes) (h : Wire.Coverage.safeModelled cls = true) :
+    Wire.ParseSafe (Wire.parseOne cls b) :=
+  Wire.registry_classesSafe.safe cls b h
+
+/-- the rows concerned: every entry point the table marks `modelled` through the wire registry names such a class -/
+example : Wire.Coverage.safeModelled "IP" = true ∧ Wire.Coverage.safeModelled "ICMPv6" = true := by decide
 
 /-- non-vacuity: a concrete operation sequence that succeeds and one that is rejected -/
 example : ∃ c', (Cursor.ofBytes [1, 2, 3, 4, 5]).run [.read 2, .peek 0 2, .shrink 2, .skip 2] = .ok c' := ⟨_, rfl⟩
